@@ -1,7 +1,12 @@
 """Per-property configuration of bin/check: generator emphasis, footprint (components × operations whose
 correspondence the property's theorems rest on), the theorems that must appear in the axiom audit."""
 
+import json as _json, os as _os
 ALLOWED_AXIOMS = {"propext", "Classical.choice", "Quot.sound"}
+try:
+    THEOREMS = _json.load(open(_os.path.join(_os.path.dirname(_os.path.abspath(__file__)), "theorems.json")))
+except OSError:
+    THEOREMS = {}
 
 USER_OPS = ["delegate", "undelegate", "redelegate", "claim"]
 GOV_OPS = ["create", "update", "delete", "params"]
@@ -83,6 +88,15 @@ PROPS = {
 
 # properties not claimed (none: every property is decided by the same technique; C19 at level `other`)
 NOT_APPLICABLE = {}
+
+# theorem lists come from the Lean sources (bin/mkaudit.py); a property with registered theorems is claimed at level `proof`
+for _pid, _c in PROPS.items():
+    _t = THEOREMS.get(_pid, [])
+    if _t:
+        _c["theorems"] = _t
+        _c["module"] = "AllianceProps." + _pid
+        if _c["level"] == "translation_validation":
+            _c["level"] = "proof"
 
 NOTES = ("Machine-checked proof in Lean 4 over a hand-written executable model of x/alliance, tied to /repo on every run by trace "
          "correspondence (DESIGN.md). Known findings are listed in KNOWN_FINDINGS.txt; repaired defects are `fix:` commits in /repo.")
